@@ -53,6 +53,10 @@ var realCommon = []string{"all of google/pprof's packages profile and internal/{
 var stubCommon = []string{"kernel filesystem (simos in-memory disk with fault and crash model)", "goroutine scheduler (simrt baton scheduler driven by the choice tape)", "sync primitives' blocking behaviour (simsync model + real primitive)", "clock (simtime)", "external programs dot/addr2line/nm/objdump/browsers (simexec scripts)", "terminal, flags, output writer (plug-in seams)", "HTTP listener (handlers called directly through the HTTPServer seam)", "remote servers (http.RoundTripper seam)"}
 
 var specs = map[string]*checkSpec{
+	"C09": {Prop: "C09", Engine: "c09", Pkg: "internal/driver", Level: "exploration", QuickS: 40, ThorS: 1200,
+		Rule:     "cases are seeded sessions of the real driver.PProf over seeded odd-but-valid profiles (0/1/2-character and non-hex build ids, empty and metacharacter strings, ids near 2^64, no mappings, unsymbolized and empty stacks, extreme values, odd label units): interactive histories of 1..14 hostile lines from a command/option grammar plus noise tokens, each followed by a usability probe, ending with quit, EOF or a terminal read error, with the completer called on seeded prefixes; command lines with seeded flag assignments; web histories of 1..10 requests with noise query strings each followed by a probe request. Per-run swarm of faults in what pprof talks to: output writer failing, object tool failing or answering unusual-but-well-formed data, dot and browsers missing or present, random disk errors (permille from the tape) on create/write/close/read/mkdir/remove. A panic in any task, handler or the completer, a deadlock, the step cap, os.Exit, or a session that stops reading its input is a violation. A case is distinct by its full line/argument/request list; all are non-trivial (each contains at least one hostile element)",
+		StateDef: "distinct (handler, status) pairs / swarm configurations",
+		Assume:   []string{"plug-in answers are unusual but well-formed (every symbol has a name, ranges are ordered): C09 quantifies over profiles, options, lines and query strings, not over malformed plug-in data", "a profile that cannot be fetched at all is 'reports an error'"}},
 	"C12": {Prop: "C12", Engine: "c12", Pkg: "internal/driver", Level: "fault_enumeration", QuickS: 30, ThorS: 900,
 		Rule:     "cases are seeded profiles (1-3 mappings incl. fake, URL, unsymbolizable and already-symbolized ones, sparse function ids, addresses at mapping edges and 0, partly symbolized locations) x symbolization mode (16 mode strings incl. force and every demangle setting) x mapping sources (symbol/symbolz URLs, non-URLs, unreachable hosts, address deltas incl. overflowing ones); the real symbolizer.Symbolizer runs against a scripted ObjTool and symbolz endpoint; the fault-free execution is recorded (N plug-in calls) and then each call k is failed in turn with every applicable failure kind (Open: error, wrong/empty build id; SourceLine: error, empty, empty names, zero lines, 6 frames; POST: transport error, 500 with and without pprof body, malformed, other addresses, truncated, partial, non-hex, empty) plus seeded 2-4-fault plans; oracle = frame condition on a deep snapshot (samples, values, labels, stack identities, addresses, mapping ranges, line tables of mappings that already carried symbols, names never emptied, unique ids, CheckValid). A case is distinct by its full description and non-trivial if the fault-free run made at least one plug-in call",
 		StateDef: "distinct (mode, number of plug-in calls) pairs",
